@@ -164,11 +164,8 @@ Definition run_action (a : action) (w : world) : world :=
       if negb (w_conn w) then noconn w else upd_log (w_hd w) (s2t "= hd")
   | ASetBroker m => upd_log (upd_broker w m) (s2t "= broker")
   | ASetPid p =>
-      let s := w_sess w in
-      let p' := if N.eqb p 0 then 1 else p in
-      upd_log (upd_sess w {| s_cfg := s_cfg s; s_client_id := s_client_id s; s_reader := s_reader s; s_ob := s_ob s;
-                             s_pid := p'; s_gen := s_gen s; s_sp := s_sp s; s_srv := s_srv s; s_rt := s_rt s |})
-              (s2t "= pid")
+      let p16 := p mod 65536 in
+      upd_log (upd_sess w (set_pid (w_sess w) (if N.eqb p16 0 then 1 else p16))) (s2t "= pid")
   end.
 
 Definition halted (w : world) : bool :=
